@@ -32,6 +32,13 @@ Proof. vm_compute. reflexivity. Qed.
 Lemma ob_via_in_stack : In (b "NewViaModifier") stack_request_order.
 Proof. vm_compute. tauto. Qed.
 
+(* every stack gets its own random boundary: NewStack calls header.NewViaModifier, which calls randomBoundary() *)
+Lemma ob_stack_via_fresh_boundary : stack_via_fresh_boundary = true.
+Proof. vm_compute. reflexivity. Qed.
+(* CONNECT through an upstream HTTP(S) proxy always carries the modified client header (incl. Via) *)
+Lemma ob_connect_header_cloned : connect_header_cloned_unconditionally = true.
+Proof. vm_compute. reflexivity. Qed.
+
 (* ---------- consequences ---------- *)
 Lemma via_modify_fixed : via_modify = via_modify_gen true.
 Proof. unfold via_modify. rewrite ob_via_reads_all_lines. reflexivity. Qed.
